@@ -61,11 +61,13 @@ func init() { core.Register(P{}) }
 func (P) ID() string { return "C19" }
 func (P) Rule() string {
 	return "case = either one logging run (`m` op per message, then `run`): 1..8 messages (requests/responses, request+response pairs sharing an id, random pseudo-header " +
-		"fields, header maps with repeated/empty/binary/long values, bodies 0..MiB delivered by a scripted body in random chunkings with " +
+		"fields, header maps with repeated/empty/binary/long (> 64 KiB) values, bodies 0..MiB delivered by a scripted body in random chunkings (one Read returns 1 byte .. 1 MiB) with " +
 		"EOF-with-data / separate EOF / early stop / mid-body error / reads after EOF, consumer buffers of random slack) logged concurrently " +
 		"to one real marbl.Stream (writer: a recorder that also retains the slices it is handed; via marbl.Modifier in 1/5, into the real marbl.Handler " +
-		"with a real websocket subscriber in 2/5 of the cases) and parsed back with marbl.Reader and an independent parser; or a batch of `read` ops: streams of valid " +
-		"frames that are truncated, bit-flipped, re-typed, given boundary/huge length fields, spliced with random bytes, or purely random; " +
+		"with a real websocket subscriber in 2/5 of the cases; or, `rung`, 2..6 messages under a controlled schedule: the writer goroutine is held inside every Write, " +
+		"message starts and body reads are released one gate at a time by a seeded scheduler that waits for all goroutines to block) and parsed back with marbl.Reader and an independent parser, " +
+		"the model replaying the observed order of writes; or a batch of `read` ops: streams of valid " +
+		"frames (1/30 with a header or data frame around/above 64 KiB) that are truncated, bit-flipped, re-typed, given boundary/huge length fields, spliced with random bytes, or purely random; " +
 		"distinct by hash of the op list; non-trivial when a log case has >= 2 messages and >= 2 data frames, or a read batch reaches " +
 		">= 2 different terminating outcomes or parses >= 1 frame before an error"
 }
@@ -673,8 +675,12 @@ func doLog(toks []string, mode string, seed uint64, opText string) core.Result {
 	close(start)
 	done := make(chan struct{})
 	go func() { wg.Wait(); close(done) }()
-	if g != nil && !g.drive(20*time.Second) {
-		return core.Result{Impl: "hang", Fail: "controlled schedule: logging goroutines and the stream's writer did not come to rest within 20s", Sig: "log-hang"}
+	if g != nil {
+		ok := g.drive(20 * time.Second)
+		g.release() // from here on no gate holds anybody (a writer that still has frames to write must not park for ever)
+		if !ok {
+			return core.Result{Impl: "hang", Fail: "controlled schedule: logging goroutines and the stream's writer did not come to rest within 20s", Sig: "log-hang"}
+		}
 	}
 	select {
 	case <-done:
